@@ -3,6 +3,7 @@
   (Both directions, for all eight structures; the per-slot rules for headers are C08's.)
 -/
 import CosetProofs.Shapes
+import CosetProofs.Cbor.Encodings
 namespace Coset.Props.C09
 open Coset
 
@@ -66,6 +67,32 @@ example : (fromSlice CoseSign1.fromValue [0x84, 0x40, 0xa0, 0x41, 0x01, 0x41, 0x
     (fromSlice CoseEncrypt.fromValue [0x84, 0x40, 0xa0, 0x41, 0x01, 0x41, 0x02]).isOk = false := by decide +kernel
 
 
+/-! ### "all encodings": the byte-level decoders on any well-formed encoding of an item -/
+
+/-- For every well-formed encoding `b` of an item `v` (any head widths, definite or indefinite lengths, any chunking, bignum forms:
+    `Spec.Encodes`), `from_slice` of each of the eight structures gives exactly what the Value-level conversion gives on `v` — so the
+    accepted-iff theorems above, stated on items, hold for the bytes of every encoding. -/
+theorem bytes_any_encoding (v : Value) (b : Bytes) (h : Spec.Encodes v b) (hd : Cbor.depthOf v ≤ Cbor.recursionLimit) :
+    fromSlice CoseSign1.fromValue b = CoseSign1.fromValue v ∧ fromSlice CoseSign.fromValue b = CoseSign.fromValue v ∧
+    fromSlice sigFromValue b = sigFromValue v ∧ fromSlice CoseMac.fromValue b = CoseMac.fromValue v ∧
+    fromSlice CoseMac0.fromValue b = CoseMac0.fromValue v ∧ fromSlice CoseEncrypt.fromValue b = CoseEncrypt.fromValue v ∧
+    fromSlice CoseEncrypt0.fromValue b = CoseEncrypt0.fromValue v ∧ fromSlice rcpFromValue b = rcpFromValue v :=
+  ⟨fromSlice_of_encodes _ v b h hd, fromSlice_of_encodes _ v b h hd, fromSlice_of_encodes _ v b h hd, fromSlice_of_encodes _ v b h hd,
+   fromSlice_of_encodes _ v b h hd, fromSlice_of_encodes _ v b h hd, fromSlice_of_encodes _ v b h hd, fromSlice_of_encodes _ v b h hd⟩
+
+/-- two encodings of one item are accepted or rejected alike, with the same result, by every structure's decoder
+    (several types share a shape: the same bytes decoded as each type). -/
+theorem any_two_encodings (v : Value) (b1 b2 : Bytes) (h1 : Spec.Encodes v b1) (h2 : Spec.Encodes v b2) (hd : Cbor.depthOf v ≤ Cbor.recursionLimit) :
+    fromSlice CoseSign1.fromValue b1 = fromSlice CoseSign1.fromValue b2 ∧ fromSlice CoseMac0.fromValue b1 = fromSlice CoseMac0.fromValue b2 ∧
+    fromSlice CoseEncrypt.fromValue b1 = fromSlice CoseEncrypt.fromValue b2 ∧ fromSlice CoseSign.fromValue b1 = fromSlice CoseSign.fromValue b2 ∧
+    fromSlice CoseMac.fromValue b1 = fromSlice CoseMac.fromValue b2 ∧ fromSlice CoseEncrypt0.fromValue b1 = fromSlice CoseEncrypt0.fromValue b2 ∧
+    fromSlice sigFromValue b1 = fromSlice sigFromValue b2 ∧ fromSlice rcpFromValue b1 = fromSlice rcpFromValue b2 :=
+  ⟨fromSlice_encoding_independent _ v b1 b2 h1 h2 hd, fromSlice_encoding_independent _ v b1 b2 h1 h2 hd, fromSlice_encoding_independent _ v b1 b2 h1 h2 hd,
+   fromSlice_encoding_independent _ v b1 b2 h1 h2 hd, fromSlice_encoding_independent _ v b1 b2 h1 h2 hd, fromSlice_encoding_independent _ v b1 b2 h1 h2 hd,
+   fromSlice_encoding_independent _ v b1 b2 h1 h2 hd, fromSlice_encoding_independent _ v b1 b2 h1 h2 hd⟩
+
+#print axioms bytes_any_encoding
+#print axioms any_two_encodings
 #print axioms CoseSign1
 #print axioms CoseMac0
 #print axioms CoseEncrypt0
